@@ -706,7 +706,8 @@ def r10_cache_key_agreement(ctx, rule):
                             changed = True
         best = []
         for n in walk_local(fn):
-            if isinstance(n, ast.Subscript):
+            if isinstance(n, ast.Subscript) or (isinstance(n, ast.Call) and isinstance(n.func, ast.Attribute)
+                                                 and n.func.attr in ('get', 'setdefault')):
                 c = chain(n)
                 if c is not None and len(c) > len(best):
                     best = c
@@ -724,9 +725,90 @@ def r10_cache_key_agreement(ctx, rule):
                 'yields depends on what the cache already holds', facts, ctx.fn(OPT + 'lookup'))
 
 
+def r12_hit_implies_stored(ctx, rule):
+    """Optimizer.lookup answers (True, tree) only for a key that was stored: every `.get()` hop on the way to the returned tree
+    must be tested for None (and answered with the miss) before the hit is returned.  (Seed C04-i replaced the KeyError handler by
+    dict.get(): an n-gram cached for another level came back as (True, None) - "there is no completion" - and the whole
+    sub-tree was pruned, so a level lost strings depending on what was expanded before.)"""
+    q = OPT + 'lookup'
+    fn = ctx.fn(q)
+    mod = ctx.repo.modules[q.partition('::')[0]]
+    stores = stores_in(fn)
+    hits = [r for r in walk_local(fn) if isinstance(r, ast.Return) and isinstance(r.value, ast.Tuple) and len(r.value.elts) == 2
+            and const(r.value.elts[0]) is True]
+    if not ctx.floor(rule, q, len(hits), 1, 'hit returns in Optimizer.lookup'):
+        return
+    ok = True
+    for r in hits:
+        e = r.value.elts[1]
+        while isinstance(e, ast.Call) and (call_name(e) or '').rpartition('.')[2] in ('custom_copy', 'copy', 'deepcopy', 'list') and e.args:
+            e = e.args[0]
+        conds = path_conditions(mod, r)
+
+        def checked(x):
+            name = U(x)
+            flat = []
+            todo = list(conds)
+            while todo:
+                t, pol = todo.pop()
+                if isinstance(t, ast.BoolOp) and ((isinstance(t.op, ast.Or) and not pol) or (isinstance(t.op, ast.And) and pol)):
+                    todo.extend((v, pol) for v in t.values)     # every disjunct false / every conjunct true
+                elif isinstance(t, ast.UnaryOp) and isinstance(t.op, ast.Not):
+                    todo.append((t.operand, not pol))
+                else:
+                    flat.append((t, pol))
+            for t, pol in flat:
+                txt = U(t)
+                if (txt in ('%s is None' % name, '%s == None' % name) and not pol) or \
+                        (txt in ('%s is not None' % name, name, '%s != None' % name) and pol):
+                    return True
+            return False
+
+        def unguarded_get(x, depth=0):
+            """the first .get() hop below x whose None is not excluded on the way to this return, 'unknown', or None.  Once a value
+            is known not to be None the hops inside it cannot have missed silently (None.get raises)."""
+            if depth > 6:
+                return 'unknown'
+            if checked(x):
+                return None
+            if isinstance(x, ast.Name):
+                v = single_def(fn, x.id, stores)
+                if v is None:
+                    return 'unknown' if x.id not in params(fn) else None
+                return unguarded_get(v, depth + 1)
+            if isinstance(x, ast.Subscript):
+                return unguarded_get(x.value, depth + 1)
+            if isinstance(x, ast.Attribute):
+                return None
+            if isinstance(x, ast.Call) and isinstance(x.func, ast.Attribute) and x.func.attr == 'get':
+                if len(x.args) != 1 or x.keywords:
+                    return 'unknown'
+                return x
+            return 'unknown'
+        g = unguarded_get(e)
+        if g == 'unknown':
+            ok = False
+            ctx.unk(rule, q, 'the value returned as a cache hit is not understood: %s' % U(r.value)[:80])
+        elif g is not None:
+            ok = False
+            ctx.bad(rule, q, 'hit returned without excluding the miss of %s' % U(g)[:60],
+                    'dict.get() answers None for a key that was never stored; returned as (True, None) it reads "the cached answer is: '
+                    'no completion", the caller prunes the sub-tree, and the level loses strings depending on what was cached before', None, r)
+    if ok:
+        ctx.ok(rule, q, 'every hit return of Optimizer.lookup excludes the miss of each .get() hop (or indexes under a KeyError handler)',
+               {'hits': [U(r.value)[:80] for r in hits]})
+
+
+def r11_generator_state_per_object(ctx, rule):
+    """Cursor, parse tree and cache belong to one generator / one optimizer: no OMEN class keeps a mutable container at class level
+    that its methods change in place."""
+    from .common import no_shared_class_state
+    no_shared_class_state(ctx, rule, ['lib_guesser/omen/'], 6, 'the object is shared by every instance of the class: a second session / queue / generator created in the same process starts with (and keeps changing) the state of the first one')
+
+
 def rules(tier):
     return [('C10.R1', r1_copy_discipline), ('C10.R2', r2_memo_key), ('C10.R3', r3_sibling_constructions), ('C10.R4', r4_exact_last_transition),
-            ('C10.R5', r5_sibling_cursor_advance), ('C10.R6', r6_model_immutable), ('C10.R7', r7_prune_discipline), ('C10.R8', r8_guess_from_tree), ('C10.R9', r9_level_cursor_domain), ('C10.R10', r10_cache_key_agreement)]
+            ('C10.R5', r5_sibling_cursor_advance), ('C10.R6', r6_model_immutable), ('C10.R7', r7_prune_discipline), ('C10.R8', r8_guess_from_tree), ('C10.R9', r9_level_cursor_domain), ('C10.R10', r10_cache_key_agreement), ('C10.R11', r11_generator_state_per_object), ('C10.R12', r12_hit_implies_stored)]
 
 
 META = {
